@@ -1171,3 +1171,8 @@ Definition roundtrip_ok (c : tcfg) (tab : list (Z * string)) (m : modul) : bool 
      end
   && (tokens_eqb (print_tokens c fr (norm c m)) (print_tokens c fr m)
       && String.eqb (print_text c fr (norm c m)) (print_text c fr m)).
+
+(* the hypotheses of the round-trip theorem, evaluated per generated module by the check: when the model says
+   "well-formed and printable", the real print/read round trip (modulo volatile flags) must have succeeded *)
+Definition case_hyp (c : tcfg) (tab : list (Z * string)) (m : modul) (real_ok : bool) : val :=
+  VB (implb (wf_modul m && printable c (fr_of tab) (fp_of tab) m) real_ok).
